@@ -66,6 +66,8 @@ func (p *FinalLimitPlan) Batch(ctx *ExecuteCtx) ([][]Column, error) {
 		}
 		if nrows <= restSkips {
 			p.skips += nrows
+			// the whole batch is skipped: none of its rows may be emitted
+			rows = nil
 		} else {
 			p.skips += restSkips
 			rows = rows[restSkips:]
@@ -204,6 +206,8 @@ func (p *LimitPlan) Batch(ctx *ExecuteCtx) ([]KVPair, error) {
 		}
 		if nrows <= restSkips {
 			p.skips += nrows
+			// the whole batch is skipped: none of its rows may be emitted
+			rows = nil
 		} else {
 			p.skips += restSkips
 			rows = rows[restSkips:]
